@@ -717,6 +717,28 @@ package calendar
 //@   use_if yOfMono(jdn(lunarYear.year, 1, 1), mF(lunarYear.year, k)) for k in 0..14
 //@   use_if yOfMono(mF(lunarYear.year, k), jdn(lunarYear.year, 12, 31)) for k in 0..14
 
+//@ # ================================================================ C06: what a LunarYear object reports is what its table says
+//@ spec func daysOfLunarYear(y int) int
+//@   = ite(mY(y, 0) == y, mD(y, 0), 0) + ite(mY(y, 1) == y, mD(y, 1), 0) + ite(mY(y, 2) == y, mD(y, 2), 0) + ite(mY(y, 3) == y, mD(y, 3), 0) + ite(mY(y, 4) == y, mD(y, 4), 0) + ite(mY(y, 5) == y, mD(y, 5), 0) + ite(mY(y, 6) == y, mD(y, 6), 0) + ite(mY(y, 7) == y, mD(y, 7), 0) + ite(mY(y, 8) == y, mD(y, 8), 0) + ite(mY(y, 9) == y, mD(y, 9), 0) + ite(mY(y, 10) == y, mD(y, 10), 0) + ite(mY(y, 11) == y, mD(y, 11), 0) + ite(mY(y, 12) == y, mD(y, 12), 0) + ite(mY(y, 13) == y, mD(y, 13), 0) + ite(mY(y, 14) == y, mD(y, 14), 0)
+//@ spec func monthsOfLunarYear(y int) int
+//@   = ite(mY(y, 0) == y, 1, 0) + ite(mY(y, 1) == y, 1, 0) + ite(mY(y, 2) == y, 1, 0) + ite(mY(y, 3) == y, 1, 0) + ite(mY(y, 4) == y, 1, 0) + ite(mY(y, 5) == y, 1, 0) + ite(mY(y, 6) == y, 1, 0) + ite(mY(y, 7) == y, 1, 0) + ite(mY(y, 8) == y, 1, 0) + ite(mY(y, 9) == y, 1, 0) + ite(mY(y, 10) == y, 1, 0) + ite(mY(y, 11) == y, 1, 0) + ite(mY(y, 12) == y, 1, 0) + ite(mY(y, 13) == y, 1, 0) + ite(mY(y, 14) == y, 1, 0)
+//@ # T15 a lunar year has at most one leap month in its table
+//@ axiom oneLeapAx(y int) [C06]
+//@   requires 0 <= y && y <= 9999
+//@   ensures all(0, 13, func(i int) bool { return all(i+1, 14, func(j int) bool { return !(mY(y, i) == y && mM(y, i) < 0 && mY(y, j) == y && mM(y, j) < 0) }) })
+//@   domain y 0 9999
+//@   checked_by tables
+//@ ghost func yearViews(ly *LunarYear) [C06]
+//@   body
+//@     y := ly.year
+//@     oneLeapAx(y)
+//@     assert(ly.GetDayCount() == daysOfLunarYear(y))
+//@     assert(llen(ly.GetMonthsInYear()) == monthsOfLunarYear(y))
+//@     lm := ly.GetLeapMonth()
+//@     assert((lm == 0) == all(0, 14, func(i int) bool { return !(mY(y, i) == y && mM(y, i) < 0) }))
+//@     assert(all(0, 14, func(i int) bool { return implies(mY(y, i) == y && mM(y, i) < 0, lm == 0-mM(y, i)) }))
+//@     assert(all(0, 14, func(i int) bool { return implies(mY(y, i) == y, ly.GetMonth(mM(y, i)) != nil) }))
+
 //@ # the eight-character object is created on first use and kept; the memo field is touched nowhere else (structural scan)
 //@ func (lunar *Lunar) GetEightChar() *EightChar [C08 C11]
 //@   memo lunar.eightChar
